@@ -481,20 +481,22 @@ class Scene(Geometry3D):
         mass = {k: m.mass for k, m in self.geometry.items() if hasattr(m, "mass")}
 
         # get the geometry name and transform for each instance
+        # skipping geometry without mass properties, i.e. point clouds and paths
         graph = self.graph
         instance = [graph[n] for n in graph.nodes_geometry]
+        instance = [(mat, g) for mat, g in instance if g in center_mass and g in mass]
 
         # get the transformed center of mass for each instance
         transformed = np.array(
-            [
-                np.dot(mat, np.append(center_mass[g], 1))[:3]
-                for mat, g in instance
-                if g in center_mass
-            ],
+            [np.dot(mat, np.append(center_mass[g], 1))[:3] for mat, g in instance],
             dtype=np.float64,
         )
-        # weight the center of mass locations by volume
-        weights = np.array([mass[g] for _, g in instance], dtype=np.float64)
+        # weight the center of mass locations by the mass of the instance
+        # which scales with the determinant of the instance transform
+        weights = np.array(
+            [mass[g] * np.abs(np.linalg.det(mat[:3, :3])) for mat, g in instance],
+            dtype=np.float64,
+        )
         weights /= weights.sum()
         return (transformed * weights.reshape((-1, 1))).sum(axis=0)
 
